@@ -105,6 +105,9 @@ L2_REPCARD = [RP + n for n in ["andCardinality_spec", "orCardinality_spec", "int
     ["RModel.Impl.Cont.andCardinalityQ_spec", "RModel.Impl.Cont.intersectsQ_spec", "RModel.Impl.Cont.equalsQ_spec"]
 L1_XFORM = ["RModel.BSet.mem_shift", "RModel.BSet.canon_shift", "RModel.BSet.mem_flipRange", "RModel.BSet.canon_xor"]
 
+C16_OWNS = {"off", "off32", "sflip", "eq", "dense", "fromdense", "frombitset", "densechk", "dig",
+            "zdense", "zfromdense", "safe", "digall", "zdetach", "zsame", "l2off", "l2sflip", "l2dense", "l2fromdense"}
+
 PROPS = {
     "C01": {"suites": [("alg", 1.0), ("kern", 0.3), ("kernspecial", 1.0), ("kernthresh", 0.5), ("popcnt", 1.0), ("kernl2", 0.5), ("l2rep", 0.5), ("kernmutbin", 0.3), ("l2mut", 0.3), ("l2q", 0.4)],
             "theorems": L1_ALGEBRA + F_THRESH + L2_CONT + L2_REP + L2_IBIN + L2_REPIBIN + PINS + FASTEQ + L2_REPCARD,
@@ -177,14 +180,16 @@ PROPS = {
             "modules": DEFAULT_MODULES + [FACTS, "RProofs.Properties.C13", "RProofs.Properties.C13Spec"],
             "owns": {"frz", "frzsmall", "frzwfail", "fview", "fdec", "fspec", "fchk", "fgc", "wf", "dig", "eq", "card", "toarr"}},
     "C14": {"suites": [("hist", 1.0), ("alg", 0.7), ("xform", 0.5), ("thresh", 0.5), ("sizeb", 1.0), ("agg", 0.5)],
-            "theorems": ["RModel.Impl.readme_bound", "RModel.Impl.bound_function", "RModel.BSet.canon_ext"] + F_SERIAL,
-            "modules": DEFAULT_MODULES + [FACTS, "RProofs.Properties.C14"], "owns": {"size"}},
+            "theorems": ["RModel.Impl.readme_bound", "RModel.Impl.bound_function", "RModel.Facts.boundSerializedSizeInBytes_spec",
+                         "RModel.BSet.canon_ext"] + F_SERIAL,
+            "modules": DEFAULT_MODULES + [FACTS, "RProofs.Facts.Bits", "RProofs.Properties.C14"], "owns": {"size"}},
     "C15": {"suites": [("nbr", 1.0), ("kernq", 0.3), ("kernq2", 0.3), ("l2q", 0.5)], "theorems": L1_NBR + L2_NBRQ + L2_REPNBR,
             "modules": DEFAULT_MODULES + ["RProofs.ContQuery", "RProofs.RepQuery"], "owns": {"nv", "pv", "nav", "pav", "kern", "l2q"}},
     "C16": {"suites": [("xform", 1.0), ("dense", 1.0), ("zc_dense", 0.5), ("l2xform", 1.0)], "theorems": L1_XFORM + L2_XFORM,
             "modules": DEFAULT_MODULES + ["RProofs.RepXform"],
-            "owns": {"off", "off32", "sflip", "eq", "dense", "fromdense", "frombitset", "densechk", "dig",
-                     "zdense", "zfromdense", "safe", "digall", "zdetach", "zsame", "l2off", "l2sflip", "l2dense", "l2fromdense"}},
+            # in the `xform` suite the only mutations are edits of the RESULT of a static Flip / AddOffset (the operand is re-observed with
+            # `dig`): a result that does not behave like a bitmap of its own under those edits is this property's
+            "owns_fn": lambda op, mm, suite: op in C16_OWNS or (suite.split(":")[-1] == "xform" and op in {"rem", "remr", "crem", "card", "has", "wf"})},
     "C17": {"suites": [("r64", 1.0), ("l2r64", 0.6), ("l2iter2", 0.3)], "theorems": L1_ALGEBRA + L1_MUT[:5] + L1_QUERY[:9] + L1_NBR[:4] +
             ["RModel.Facts.r64Highbits_spec", "RModel.Facts.r64Lowbits_spec"] + L2_R64 + ["RModel.Impl.Rep64.toBSetFast_eq'"],
             "modules": DEFAULT_MODULES + ["RProofs.Facts.Bits", FASTEQ_MOD, "RProofs.Rep64", "RProofs.Rep64Range", "RProofs.Rep64InPlace", "RProofs.Rep64Witness"], "owns": None},
